@@ -1580,6 +1580,8 @@ VARIANTS = [
     # -- R12.3 -----------------------------------------------------------------
     {"name": "twin-benign-C12-r2-step-functions", "rule": "R12.3",
      "patch": "benign/C12-r2/patch.diff", "expect": "silent"},
+    {"name": "twin-benign-C06-r2-serialize-ast-restyled", "rule": "R12.3",
+     "patch": "benign/C06-r2/patch.diff", "expect": "silent"},
     {"name": "twin-cleanup-in-a-helper", "rule": "R12.3", "expect": "silent",
      "edits": [
          (SERIALIZE, _CLEAN_TAIL, "  ast = _CleanForExport(ast)\n"),
@@ -1740,6 +1742,34 @@ VARIANTS = [
           "def _SortedDeps(collector):\n"
           "  return (sorted(collector.dependencies.items()),\n"
           "          list(collector.late_dependencies.items()))\n\n\n" + _SER_DEF)]},
+    {"name": "twin-benign-C04-r4-gzip-writer-helper", "rule": "R12.4",
+     "patch": "benign/C04-r4/patch.diff", "expect": "silent"},
+    {"name": "twin-benign-C06-r2-inlined-collector", "rule": "R12.4",
+     "patch": "benign/C06-r2/patch.diff", "expect": "silent"},
+    {"name": "twin-gzip-mtime-named-constant", "rule": "R12.4", "expect": "silent",
+     "edits": [(PICKLE, "fileobj=fi, mtime=1.0)", "fileobj=fi, mtime=_GZIP_MTIME)"),
+               (PICKLE, "def _Load(\n", "_GZIP_MTIME = 1.0\n\n\ndef _Load(\n")]},
+    {"name": "gzip-mtime-named-constant-is-None", "rule": "R12.4", "expect": "fire",
+     "edits": [(PICKLE, "fileobj=fi, mtime=1.0)", "fileobj=fi, mtime=_GZIP_MTIME)"),
+               (PICKLE, "def _Load(\n", "_GZIP_MTIME = None\n\n\ndef _Load(\n")]},
+    {"name": "gzip-mtime-named-constant-rebound", "rule": "R12.4", "expect": "error",
+     "edits": [(PICKLE, "fileobj=fi, mtime=1.0)", "fileobj=fi, mtime=_GZIP_MTIME)"),
+               (PICKLE, "def _Load(\n",
+                "_GZIP_MTIME = 1.0\n_GZIP_MTIME = float(len(__name__))\n\n\ndef _Load(\n")]},
+    {"name": "twin-gzip-writer-in-a-helper", "rule": "R12.4", "expect": "silent",
+     "edits": [(PICKLE, "      with gzip.GzipFile(filename=\"\", mode=\"wb\", fileobj=fi, mtime=1.0) as zfi:",
+                "      with _GzipWriter(fi) as zfi:"),
+               (PICKLE, "def _Load(\n",
+                "def _GzipWriter(fi):\n"
+                "  return gzip.GzipFile(filename=\"\", mode=\"wb\", fileobj=fi, mtime=1.0)\n\n\n"
+                "def _Load(\n")]},
+    {"name": "gzip-writer-helper-keeps-file-name", "rule": "R12.4", "expect": "fire",
+     "edits": [(PICKLE, "      with gzip.GzipFile(filename=\"\", mode=\"wb\", fileobj=fi, mtime=1.0) as zfi:",
+                "      with _GzipWriter(fi) as zfi:"),
+               (PICKLE, "def _Load(\n",
+                "def _GzipWriter(fi):\n"
+                "  return gzip.GzipFile(mode=\"wb\", fileobj=fi, mtime=1.0)\n\n\n"
+                "def _Load(\n")]},
     {"name": "twin-encoder-order-sorted", "rule": "R12.4", "file": PICKLE, "expect": "silent",
      "old": "Encoder = msgspec.msgpack.Encoder(order=\"deterministic\")",
      "new": "Encoder = msgspec.msgpack.Encoder(order=\"sorted\")"},
@@ -1799,6 +1829,8 @@ VARIANTS = [
           "  with open_function(filename, \"rb\") as fi:\n"
           "    return dec.decode(fi.read())\n\n\n"
           "def DecodeAst(data: bytes)")]},
+    {"name": "twin-benign-C04-r4-read-helper", "rule": "R12.5",
+     "patch": "benign/C04-r4/patch.diff", "expect": "silent"},
     {"name": "twin-decoder-type-positional", "rule": "R12.5", "file": PICKLE, "expect": "silent",
      "old": "AstDecoder = msgspec.msgpack.Decoder(type=serialize_ast.SerializableAst)",
      "new": "AstDecoder = msgspec.msgpack.Decoder(serialize_ast.SerializableAst)"},
